@@ -20,6 +20,13 @@ use std::ops::Bound;
 use bolero_generator::driver::object::DynDriver;
 use vf_explore::Chooser;
 
+thread_local! {
+    /// While false, every simulator decision takes its default (choice 0) WITHOUT becoming a
+    /// choice point of the explorer: a test body can run a deterministic, barrier-separated
+    /// prefix under default decisions and open exploration only for its last phase.
+    pub static RECORDING: std::cell::Cell<bool> = const { std::cell::Cell::new(true) };
+}
+
 pub struct VfDriver {
     pub ch: Chooser,
     depth: usize,
@@ -34,6 +41,9 @@ impl VfDriver {
     }
 
     fn pick(&mut self, n: usize) -> Option<usize> {
+        if !RECORDING.with(|r| r.get()) {
+            return Some(0);
+        }
         if self.ch.trace.len() >= self.max_points {
             // Answering `None` makes bolero raise its "invalid input" panic (an `any::Error`
             // payload): the instance is discarded and counted by the caller as capped.
@@ -189,6 +199,7 @@ pub fn run_with_chooser(
     max_points: usize,
     thunk: impl AsyncFnOnce() + std::panic::RefUnwindSafe,
 ) -> (RunEnd, bool) {
+    RECORDING.with(|r| r.set(true));
     let taken = std::mem::replace(ch, Chooser::replay(vec![]));
     let driver = Box::new(VfDriver::new(taken, max_points));
     // `exhaustive = false`: quiescence assertions do not fork; bodies drain with `collect`.
